@@ -636,11 +636,7 @@ func (e *Env) call(n *ast.CallExpr) Val {
 		}
 		g.useTheory("kv")
 		m := "marshal_" + mangle(v.Sort)
-		if _, ok := g.ufDecl[m]; !ok {
-			g.uf(m, []string{v.Sort}, "Str")
-			g.uf("un"+m, []string{"Str"}, v.Sort)
-			g.emit(fmt.Sprintf("(assert (forall ((x %s)) (! (and (= (un%s (%s x)) x) (not (= (%s x) Bytes_nil))) :pattern ((%s x)))))", v.Sort, m, m, m, m))
-		}
+		g.declareCodec(v.Sort)
 		return Val{Sort: "Str", Term: fmt.Sprintf("(%s %s)", m, v.Term)}
 	case "unmarshal": // unmarshal("Sort", bytes)
 		need(2)
@@ -649,11 +645,7 @@ func (e *Env) call(n *ast.CallExpr) Val {
 		b := e.tr(args[1])
 		g.useTheory("kv")
 		m := "marshal_" + mangle(srt)
-		if _, ok := g.ufDecl[m]; !ok {
-			g.uf(m, []string{srt}, "Str")
-			g.uf("un"+m, []string{"Str"}, srt)
-			g.emit(fmt.Sprintf("(assert (forall ((x %s)) (! (and (= (un%s (%s x)) x) (not (= (%s x) Bytes_nil))) :pattern ((%s x)))))", srt, m, m, m, m))
-		}
+		g.declareCodec(srt)
 		return Val{Sort: srt, Term: fmt.Sprintf("(un%s %s)", m, b.Term)}
 	case "jsonok", "jsondec": // jsonok("Sort", bytes) / jsondec("Sort", bytes): the json.Unmarshal model (A-DEP)
 		need(2)
@@ -666,6 +658,24 @@ func (e *Env) call(n *ast.CallExpr) Val {
 			return Val{Sort: "Bool", Term: fmt.Sprintf("(%s %s)", okf, b.Term)}
 		}
 		return Val{Sort: srt, Term: fmt.Sprintf("(%s %s)", decf, b.Term)}
+	case "jhas", "jget", "jok": // JSON access map stored as text: jhas(text, id), jget(text, id), jok(text)
+		b := e.tr(args[0])
+		g.sorts.mapHeap(g.sorts.ensureMapSort("Str", "Str"))
+		_, dec, okf := g.jsonMapFuncs()
+		switch fn.Name {
+		case "jok":
+			need(1)
+			return Val{Sort: "Bool", Term: fmt.Sprintf("(%s %s)", okf, b.Term)}
+		case "jhas":
+			need(2)
+			k := e.tr(args[1])
+			return Val{Sort: "Bool", Term: fmt.Sprintf("(select (mhas_MapVal_Str_Str (%s %s)) %s)", dec, b.Term, k.Term)}
+		default:
+			need(2)
+			k := e.tr(args[1])
+			// Go lookup semantics: the zero value for an absent key
+			return Val{Sort: "Str", Term: fmt.Sprintf("(ite (select (mhas_MapVal_Str_Str (%s %s)) %s) (select (mval_MapVal_Str_Str (%s %s)) %s) %s)", dec, b.Term, k.Term, dec, b.Term, k.Term, strLit(""))}
+		}
 	case "zero": // zero("Sort")
 		need(1)
 		srt, _ := strconv.Unquote(args[0].(*ast.BasicLit).Value)
